@@ -308,20 +308,16 @@ class PairingToZ1d:
 
     def _projection_with_switch_to_right(self, x: int) -> int:
         res = projection_to_z(x)
-        if self._switch or res < self.left:
-            self._switch = True
-            self._kk += 1
-            val = -self.left + self._kk + 1
-            return val
+        if x > 1 - 2 * self.left:
+            # past the symmetric part [left, -left] (and -left + 1): only states on the right remain
+            return x + self.left
         return res
 
     def _projection_with_switch_to_left(self, x: int) -> int:
         res = projection_to_z(x)
-        if self._switch or res > self.right:
-            self._switch = True
-            self._kk += 1
-            val = -self.right - self._kk
-            return val
+        if x > 2 * self.right:
+            # past the symmetric part [-right, right]: only states on the left remain
+            return self.right - x
         return res
 
 
